@@ -42,12 +42,8 @@ fn c07pq_hyphen_name_that_needs_quoting() {
     printed_is("-v$", &v, &crate::typeset::PRINT_CONTEXT, "typeset -- '-v$'=x\n");
     std::mem::forget(v);
 }
-#[kani::proof] #[kani::unwind(40)]
-fn c07pq_exported_array_in_export_listing() {
-    let v = var(Some(Value::array(["1"])), true);
-    printed_is("a", &v, &crate::export::PRINT_CONTEXT, "a=(1)\nexport a\n");
-    std::mem::forget(v);
-}
+// (a harness for an exported ARRAY in the export listing - expected `a=(1)\nexport a\n` - was withdrawn: > 900 s in CBMC; the array
+// printer allocates a vector of strings.  The `export NAME` line after an array is therefore NOT checked.)
 #[kani::proof] #[kani::unwind(40)]
 fn c07pq_valueless_exported() {
     let v = var(None, true);
